@@ -187,3 +187,18 @@ def _kf10(prop, f):
     a = common.strip_tree(_collapse_ws_in_delimited(d))
     b = common.strip_tree(_collapse_ws_in_delimited(r["ok"]))
     return a == b
+
+
+# ---------------------------------------------------------------------------------------------
+# KF3 / KF4 / KF5 (C05, C07): the oracle itself records which finding predicts the outcome
+# ---------------------------------------------------------------------------------------------
+
+def _explained(fid):
+    def f(prop, failure):
+        inp = failure.get("input") or {}
+        return any(fid in e.split("+") for e in inp.get("explained_by", []))
+    return f
+
+
+for _fid in ("KF3", "KF4", "KF5"):
+    CLASSIFIERS[_fid] = _explained(_fid)
